@@ -204,6 +204,21 @@ VKrep(h, L) ==
          "C10:a usage report multicast by the kernel did not reach the owning SMF with its values and cause intact"),
        V(Len(srrs) <= Cardinality(seids), "C10:more session reports than sessions in the batch") }
 
+\* ------------------------------------------------------------------ C01 at the kernel boundary: the rule tables of the (simulated) module
+\* The rules a correct UPF holds in the kernel after the step: those named by Create IEs of live sessions and not removed since
+\* (no faults are injected at this level, and a Modification Request is carried out IE by IE whatever a single IE returns).
+WantRules(h2) == {<<"far", x.seid, x.id>> : x \in h2.far} \cup {<<"pdr", x.seid, x.id>> : x \in h2.pdr}
+                 \cup {<<"qer", x.seid, x.id>> : x \in h2.qer} \cup {<<"urr", x.seid, x.id>> : x \in h2.urr}
+VKernel(h2, L) ==
+  LET K == {<<r.kind, r.seid, r.id>> : r \in Rng(L.krules)}
+      want == WantRules(h2)
+      mine == {k \in K : k[2] \in LiveSeids(h2)}
+  IN UNION {
+       V(K = mine, "C01:the kernel holds a rule of a session that has ended or never existed"),
+       V(mine \subseteq want, "C01:the kernel holds a rule its session did not request by a Create IE, or has removed"),
+       V({k \in want : k[1] \in {"pdr", "far"}} \subseteq K, "C02:a PDR or FAR created by the SMF is missing from the kernel"),
+       V({k \in want : k[1] \in {"qer", "urr"}} \subseteq K, "C03:a QER or URR created by the SMF is missing from the kernel") }
+
 \* ------------------------------------------------------------------ verdict and ghost update
 SessEnds(h, L) ==
   LET e == L.e IN
@@ -236,6 +251,7 @@ VerdictL2x(h, L, h2) ==
                                     V(e.tag = "", "C17:goroutines still running after Stop") }
          [] OTHER -> V(L.gpdu = << >>, "C13:packets emitted without a FAR switching to forwarding"),
        IF e.t = "stop" THEN {} ELSE VQueues(h2, L),
+       IF e.t = "stop" THEN {} ELSE VKernel(h2, L),
        IF e.t \in {"est", "mod", "del", "assoc", "tick"} THEN VTickers(h2, L) ELSE {} }
 
 VerdictL2(h, L) == VerdictL2x(h, L, HNext0(h, L))
